@@ -191,6 +191,7 @@ def check_C06(c):
         jobs.append(('tr_encode', dict(tr=tr, epi=epi, topreq=c.rng.choice(vs + [None, 'k']), xtop=c.rng.choice([None, None] + vs))))
     traces = pmake(jobs)
     c.judge('J_Layout', traces, 'encode', nontrivial=lambda t: len(t['g']['tr']) >= 3)
+    _stepwise(c, _q(c, 400, 6000))
     c.rule = ('graphs decoded from random well-formed trees under 1-5 marker/order edits (drop markers, drop all POPs, add Push(v) '
               'for any variable on any triple, duplicate a Push, add POPs, swap marker lists, shuffle triples under fixed markers, '
               'rotate, move a triple, strip a triple) x any variable or the default as top; arbitrary triple lists (ill-formed, '
@@ -198,6 +199,61 @@ def check_C06(c):
               'non-trivial = three or more triples')
     c.assumptions += ['a call that does not return within 5 s counts as non-termination (violation)',
                       'error precision on ill-formed lists whose Push markers name non-variables is not judged (O10)']
+
+
+def _stepwise(c, n):
+    """
+    Step-wise binding of the PlusCal machine: executions of configure() recorded through the PENMAN_VERIF hook are validated
+    event by event against the machine's own actions (Trace_Configure).  Disagreement is drift (internal structure), but the
+    binding itself is demonstrated on every run: corrupted copies of accepted traces must be rejected.
+    """
+    import json
+    import os
+    import subprocess
+    import sys
+    jobs = []
+    for tr, epi, vs in _decoded_graphs(c, n):
+        if not vs or any(not isinstance(t[2], str) and t[2] is not None for t in tr):
+            continue
+        epi = [[m for m in e if m['m'] in ('push', 'pop')] for e in epi]
+        for _ in range(2):
+            tr2, epi2 = gen.corrupt_markers(c.rng, tr, epi, vs, edits=c.rng.choice([0, 1, 2, 3]))
+            jobs.append({'tr': tr2, 'epi': epi2, 'top': c.rng.choice(vs)})
+    env = dict(os.environ, PENMAN_VERIF='1', PYTHONPATH=os.environ.get('PENMAN_SRC', '/repo'), PYTHONDONTWRITEBYTECODE='1')
+    p = subprocess.run([sys.executable, '-B', '-m', 'harness.configure_worker'], input=''.join(json.dumps(j) + '\n' for j in jobs),
+                       capture_output=True, text=True, env=env, cwd=tlc.VERIF, timeout=1800)
+    if p.returncode != 0:
+        raise tlc.MachineryError('configure worker failed (is the PENMAN_VERIF hook present in penman/layout.py?): ' + p.stderr[-1500:])
+    traces = [json.loads(l) for l in p.stdout.splitlines() if l.strip()]
+    if len(traces) != len(jobs):
+        raise tlc.MachineryError('configure worker returned %d traces for %d jobs' % (len(traces), len(jobs)))
+    for t in traces:
+        t['kind'] = 'configure-steps'
+    verdicts = c.judge('Trace_Configure', traces, 'stepwise', nontrivial=lambda t: len(t['events']) >= 4, gating=False)
+    # sensitivity of the binding: corrupt one recorded field / drop one event of accepted traces
+    good = [t for t, v in zip(traces, verdicts) if v[0] == 'ACCEPT' and len(t['events']) >= 3][:60]
+    bad = []
+    for k, t in enumerate(good):
+        u = json.loads(json.dumps(t))
+        i = c.rng.randrange(len(u['events']))
+        if k % 3 == 0:
+            del u['events'][i]
+        elif k % 3 == 1:
+            u['events'][i]['n'] += 1
+        else:
+            u['events'][i]['var'] = u['events'][i]['var'] + 'x' if u['events'][i]['ev'] in ('enter', 'leave', 'find') else u['events'][i]['var']
+            u['events'][i]['s'] = not u['events'][i]['s']
+        bad.append(u)
+    if bad:
+        vb, st = tlc.judge('Trace_Configure', bad, tag=f'{c.pid}_selftest')
+        c.states += st['distinct']
+        c.transitions += st['states']
+        missed = [i for i, v in enumerate(vb) if v[0] != 'REJECT']
+        c.notes.append('binding self-test: %d corrupted step traces (event dropped / counter changed / flag flipped), %d rejected by TLC' % (len(bad), len(bad) - len(missed)))
+        if missed:
+            raise tlc.MachineryError('the step-wise trace specification accepted %d corrupted traces' % len(missed))
+    agree = sum(1 for v in verdicts if v[0] == 'ACCEPT')
+    c.notes.append('step-wise agreement of configure() with the PlusCal machine: %d of %d recorded executions' % (agree, len(traces)))
 
 
 # ------------------------------------------------------------------------ C05
